@@ -16,13 +16,14 @@ C19 = {
         "thorough": [{"module": "MC_pointer", "cfg": "MC_pointer_thorough.cfg", "workers": 8, "timeout": 1200}],
     },
     "replay_args": ["replay"],
-    "random_args": {"quick": [["random", "300", "40"]], "thorough": [["random", "10000", "200"]]},
+    "random_args": {"quick": [["random", "300", "40"], ["tree", "300", "40"]], "thorough": [["random", "10000", "200"], ["tree", "10000", "120"]]},
     "trace": ("Trace_pointer", "Trace_pointer.cfg"),
     "shards": {"quick": 6, "thorough": 12},
-    "nontrivial": lambda ev: (repr(ev["inp"]["path"]) if len(ev["inp"]["path"]) >= 2 else None),
+    "nontrivial": lambda ev: (repr(ev["inp"].get("ops") or ev["inp"]["path"]) if len(ev["inp"].get("ops") or ev["inp"]["path"]) >= 2 else None),
     "rule": "one run per path: every path of <= MaxLen steps over 2 keys x 2 indices enumerated by TLC (MC_pointer) and replayed "
             "through the real push_key/push_index with the four observations logged after every push, plus seeded random paths "
-            "(unicode/empty keys, usize::MAX indices); non-trivial = distinct paths with >= 2 steps",
+            "(unicode/empty keys, usize::MAX indices) and seeded random walks over trees of locations (pushes and returns: siblings share a "
+            "prefix, and the caller's location is observed again after every return); non-trivial = distinct paths / walks with >= 2 steps",
     "assumptions": ASSUME_COMMON + ["ValuePointer components are read through their derived Debug output (the component type is not exported)"],
 }
 
